@@ -1,6 +1,7 @@
 import JediModel.Model.WalkSrc
 import JediModel.Lemmas.Walk
 import JediModel.Lemmas.WalkPath
+import JediModel.Lemmas.WalkTree
 import JediModel.Lemmas.Search
 /-! # C19 — Project search finds every definition and honours ignore rules
 
@@ -264,6 +265,67 @@ example : Reach (fun _ n => n != "venv".toList) "/r".toList []
 example : (walkRoot srcCfg "/r".toList ⟨[], []⟩ [⟨"m.py".toList, []⟩]
     (.cons "venv".toList [⟨"v.py".toList, []⟩] .nil (.cons "a".toList [⟨"k.pyi".toList, []⟩] .nil .nil))).1.map (·.path)
     = ["/r/m.py".toList, "/r/a".toList, "/r/a/k.pyi".toList] := by decide
+
+/-! ## FULL: everything that no applicable rule names is yielded
+
+`walk_complete` above measures against the final state of the walk, which holds the entries of
+every `.gitignore` of the project.  Before the fix a relative entry of `a/.gitignore` also pruned
+below the sibling `ab/` (`witness_sibling_prefix_pruned`).  Now only the `.gitignore` files in the
+directory itself and above it count, in terms of tree positions (name chains), not of string
+prefixes.  Hypotheses: the project path is non-empty without trailing separator, names contain no
+separator, and `except_paths_relative` starts empty (it always does: it is a local variable). -/
+
+/-- **entries of a `.gitignore` only apply in and below its own directory; every other python
+file is yielded**: a `.py/.pyi` file `f` of the directory at name chain `ns` is yielded if
+* no directory on the way is named in `_IGNORE_FOLDERS`, is one of the caller's `except_paths`, or
+  is named by a `.gitignore` entry of a directory at or above its parent, and
+* the file is not one of the caller's `except_paths` and is not named by a `.gitignore` entry of
+  its own directory or a directory above — whatever `.gitignore` files lie elsewhere in the tree. -/
+theorem unnamed_file_is_yielded (root : Str) (st : St) (files : List FileEnt) (children : Forest)
+    (hroot : RootOk root) (hnames : children.AllNames ValidName) (hrel : st.rel = [])
+    (ns : List Str) (fs : List FileEnt) (hdir : DirAtRoot files children ns fs)
+    (f : FileEnt) (hf : f ∈ fs) (hpy : isPy srcCfg f.name = true) (hfn : ValidName f.name)
+    (hdirs : ∀ pre n post, ns = pre ++ n :: post →
+      n ∉ srcCfg.ignoreFolders ∧ osJoin (pathOf root pre) n ∉ st.exc ∧
+      ¬ NamedByGitignore srcCfg root files children pre n)
+    (hexc : osJoin (pathOf root ns) f.name ∉ st.exc)
+    (hfile : ¬ NamedByGitignore srcCfg root files children ns f.name) :
+    ∃ ev ∈ (walkRoot srcCfg root st files children).1,
+      ev.isFile = true ∧ ev.path = osJoin (pathOf root ns) f.name ∧ ev.name = f.name := by
+  have hns := hdir.names hnames
+  obtain ⟨f1, f2⟩ := entry_passes_final srcCfg st files children hroot hnames hrel hns hfn hexc hfile
+  have hok := fileOk_intro srcCfg f1 f2 (by decide)
+  have hkd : ∀ pre n post, ns = pre ++ n :: post →
+      keepDir srcCfg (pathOf root pre) (walkRoot srcCfg root st files children).2 n = true := by
+    intro pre n post hs
+    obtain ⟨h1, h2, h3⟩ := hdirs pre n post hs
+    have hpre : ∀ k ∈ pre, ValidName k := fun k hk => hns k (by rw [hs]; simp [hk])
+    have hn : ValidName n := hns n (by rw [hs]; simp)
+    obtain ⟨e1, e2⟩ := entry_passes_final srcCfg st files children hroot hnames hrel hpre hn h2 h3
+    exact keepDir_intro srcCfg e1 e2 h1
+  rcases hdir with ⟨hnil, hfs⟩ | hd
+  · subst hnil; subst hfs
+    exact ⟨_, (walk_complete srcCfg root st fs children).1 f hf hpy hok, rfl, rfl, rfl⟩
+  · obtain ⟨a, c, hr⟩ := reach_of_dirAt (kd := fun r n => keepDir srcCfg r (walkRoot srcCfg root st files children).2 n)
+      (root := root) (anc := []) hd hkd
+    exact ⟨_, (walk_complete srcCfg root st files children).2 _ a fs c hr f hf hpy hok, rfl, rfl, rfl⟩
+
+/-- the former counter-example: `a/.gitignore: foo` prunes `a/foo` and nothing under the sibling `ab/` -/
+example :
+    (walkRoot srcCfg "/r".toList ⟨[], []⟩ []
+      (.cons "a".toList [⟨".gitignore".toList, "foo\n".toList⟩] (.cons "foo".toList [⟨"m.py".toList, []⟩] .nil .nil)
+        (.cons "ab".toList [] (.cons "foo".toList [⟨"m.py".toList, []⟩] .nil .nil) .nil))).1.map (·.path)
+      = ["/r/a".toList, "/r/ab".toList, "/r/ab/foo".toList, "/r/ab/foo/m.py".toList] := by
+  decide
+
+/-- the hypotheses of `unnamed_file_is_yielded` hold for `ab/foo/m.py` in that tree: the only
+`.gitignore` lies at chain `[a]`, which is not a prefix of `[ab]` or `[ab, foo]` -/
+example : RootOk "/r".toList ∧ ValidName "ab".toList ∧
+    DirAt (.cons "a".toList [⟨".gitignore".toList, "foo\n".toList⟩] .nil
+        (.cons "ab".toList [] (.cons "foo".toList [⟨"m.py".toList, []⟩] .nil .nil) .nil))
+      ["ab".toList, "foo".toList] [⟨"m.py".toList, []⟩] ∧
+    ¬ (["a".toList] <+: ["ab".toList, "foo".toList]) :=
+  ⟨by unfold RootOk; decide, by unfold ValidName; decide, .sibling (.down .here), by decide⟩
 
 /-! ## open / parse limits -/
 
